@@ -173,8 +173,13 @@ fn to_ascii(name: &str) -> Option<String> {
 /// `[loc{,loc}] ("##" | "#@#") body`, loc = ["~"] name [".*"].
 fn parse_rule(text: &str) -> Option<Rule> {
     let i = text.find('#')?;
-    let (unhide, body_text) = if text[i..].starts_with("#@#") {
+    // `#?#` / `#@?#`: the ABP spellings of `##` / `#@#` for extended selectors
+    let (unhide, body_text) = if text[i..].starts_with("#@?#") {
+        (true, &text[i + 4..])
+    } else if text[i..].starts_with("#@#") {
         (true, &text[i + 3..])
+    } else if text[i..].starts_with("#?#") {
+        (false, &text[i + 3..])
     } else if text[i..].starts_with("##") {
         (false, &text[i + 2..])
     } else {
@@ -235,6 +240,23 @@ fn build_alphabet() -> Alphabet {
     for loc in location_forms() {
         for b in BODIES.iter() {
             for op in ["##", "#@#"] {
+                let text = format!("{}{}{}", loc, op, b.text);
+                let r = parse_rule(&text).expect("alphabet rule must be readable by the reference");
+                if documented_invalid(&r) {
+                    excluded.push(text);
+                } else {
+                    rules.push(r);
+                }
+            }
+        }
+    }
+    // the two ABP marker spellings on a few locations (plain selector bodies only)
+    for loc in ["example.com", "sub.example.com", "example.*", "example.com,~sub.example.com"] {
+        for (bi, b) in BODIES.iter().enumerate() {
+            if b.kind != Kind::Plain || bi > 3 {
+                continue;
+            }
+            for op in ["#?#", "#@?#"] {
                 let text = format!("{}{}{}", loc, op, b.text);
                 let r = parse_rule(&text).expect("alphabet rule must be readable by the reference");
                 if documented_invalid(&r) {
